@@ -285,7 +285,7 @@ func checkC10(c *Ctx) {
 			var ops []string
 			for e := 0; e < 1+r.Intn(6); e++ {
 				if op := c.pickEdit(r, h, r.Bool()); op != nil {
-					it := iterAt(h.pj, op.K)
+					it := editIter(h.pj, op.K, op.Path, r)
 					safeApply(op, &it)
 					ops = append(ops, op.Desc)
 				}
